@@ -37,6 +37,8 @@ pub fn owner_vectors(n: usize) -> Vec<Vec<IOStatus>> {
     }
     res
 }
+/// every list of distinct output parties: the 8 subsets in increasing order first, then the 8
+/// other orderings (the first listed party reveals to the others, so the order matters)
 pub fn output_subsets() -> Vec<Vec<IOStatus>> {
     let mut res = vec![];
     for mask in 0..8u32 {
@@ -47,6 +49,9 @@ pub fn output_subsets() -> Vec<Vec<IOStatus>> {
             }
         }
         res.push(v);
+    }
+    for l in [vec![1u64, 0], vec![2, 0], vec![2, 1], vec![1, 0, 2], vec![1, 2, 0], vec![2, 0, 1], vec![2, 1, 0], vec![0, 2, 1]] {
+        res.push(l.into_iter().map(IOStatus::Party).collect());
     }
     res
 }
